@@ -29,16 +29,19 @@ def coding_cases(draw, tier, fast=None, vt=None, message=None, force_table=False
     else:
         vt_length = vt
     options = draw(st.sampled_from(["plain", "plain", "plain", "plain", "verbose", "path", "layout", "all", "dtype",
-                                    "after_failure", "np_start"]))
+                                    "after_failure", "np_start", "table_layout"]))
     case = {"graph": graph, "bits": bits, "table": table, "fast": is_fast, "vt": vt_length}
     if options in ("verbose", "all"):
         case["verbose"] = True
     if options in ("path", "all"):
         case["need_path"] = True
     if options in ("layout", "all"):
-        case["layout"] = draw(st.sampled_from(["F", "strided", "offset"]))
+        case["layout"] = draw(st.sampled_from(["F", "strided", "offset", "readonly"]))
     if options == "after_failure":
         case["after_failure"] = True
+    if options == "table_layout" and table is not None:
+        # only the table in another memory layout (the accessor stays C-contiguous)
+        case["table_layout"] = draw(st.sampled_from(["F", "F", "strided", "offset", "readonly"]))
     if options in ("np_start", "all", "dtype"):
         # the start vertex as a numpy integer (what obtain_vertices / where() hand out), also of a narrow type
         case["np_start"] = draw(st.sampled_from(["int64", "int64", "int32", "uint8", "int16", "int8"]))
@@ -80,8 +83,8 @@ def run_encode(case, accessor=None, budget=None, **extra):
                            budget_for(case) if budget is None else budget)
     need_path = bool(case.get("need_path")) or bool(extra.pop("need_path", False))
     table = gens.table_of(case["table"])
-    if table is not None and case.get("layout"):
-        table = gens.relayout(table, case["layout"])
+    if table is not None and case.get("table_layout", case.get("layout")):
+        table = gens.relayout(table, case.get("table_layout", case.get("layout")))
     if table is not None and case.get("table_dtype"):
         table = table.astype(case["table_dtype"])  # permutation rows held in another numeric type (e.g. loadtxt)
     if case.get("after_failure"):
@@ -114,8 +117,8 @@ def run_decode(case, strand, check=None, bit_length=None, accessor=None, **extra
     acc, counter = counted(gens.accessor_of(graph, case.get("layout")) if accessor is None else accessor,
                            64 * (len(strand) + 2) + 4096)
     table = gens.table_of(case["table"])
-    if table is not None and case.get("layout"):
-        table = gens.relayout(table, case["layout"])
+    if table is not None and case.get("table_layout", case.get("layout")):
+        table = gens.relayout(table, case.get("table_layout", case.get("layout")))
     if table is not None and case.get("table_dtype"):
         table = table.astype(case["table_dtype"])
     if bit_length is None:
@@ -158,7 +161,8 @@ def walk_classes(case, strand):
         labels.append("table_at_deg2or3")
     if case["vt"]:
         labels.append("vt")
-    for option in ("verbose", "need_path", "layout", "msg_dtype", "after_failure", "np_start", "table_dtype"):
+    for option in ("verbose", "need_path", "layout", "msg_dtype", "after_failure", "np_start", "table_dtype",
+                   "table_layout"):
         if case.get(option):
             labels.append("opt:" + option)
     if not strand:
